@@ -267,6 +267,19 @@ def run(ctx: Ctx):
     for n in (0, 252, 253, 64008, 64009, 16194277, LIM[3] - 1, -1, LIM[3]):
         ctx.sample({"op": "encode", "n": n, "impl": py_encode(m, n)})
 
+    # -- 2b. results are values: an encoding held by the caller must not change when other numbers are encoded
+    held_nums = [rng.randrange(LIM[3]) for _ in range(2000)] + boundary_numbers()[:200]
+    held = [(n, m.encode_number(n)) for n in held_nums]
+    seen_at_return = [bytes(m.encode_number(n)) for n in held_nums]
+    for (n, obj), first in zip(held, seen_at_return):
+        if bytes(obj) != first or m.decode_number(obj) != n:
+            ctx.violation("property-fails", f"the encoding returned for {n} changed after later encode_number calls "
+                          f"(now {bytes(obj).hex()}, decodes to {m.decode_number(obj)}): distinct numbers share an encoding object",
+                          {"input": {"n": n, "held": True}})
+            return
+    ctx.part("held encodings re-examined after further calls", len(held), False)
+    ctx.sig(("held",))
+
     # -- 3. decode
     strings = []
     maxlen = 3 if ctx.tier == "thorough" else 2
